@@ -32,10 +32,10 @@ PROFILES = {
                    p_fault_free=0.5, fault_kinds=["crash"], p_no_ckpt_script=0.4, max_trials=12, p_nodelay_false=0.05, p_early_finish=0.3)), ],
     "C20": [(6, _p(world="mem", kinds=["hb_promotion", "hb_pasha", "hb_cost_promotion", "hb_rush_promotion", "sync_hb", "sync_hb_custom",
                                        "dehb", "pbt", "pbt"], p_delete_ckpt=0.8, p_fault_free=0.6, fault_kinds=["crash"],
-                   p_no_ckpt_script=0.1, p_nodelay_false=0.05, p_nan_metric_sync=0.4)),
+                   p_no_ckpt_script=0.1, p_nodelay_false=0.05, p_nan_metric_sync=0.4, p_early_finish_pbt=0.4)),
             (3, _p(world="local", kinds=["hb_promotion", "hb_pasha", "hb_cost_promotion", "hb_rush_promotion", "sync_hb", "sync_hb_custom",
                                          "dehb", "pbt", "pbt"], p_delete_ckpt=0.8, p_fault_free=0.6, fault_kinds=["crash"],
-                   p_no_ckpt_script=0.1, p_nodelay_false=0.05, p_async_stop=0.0, p_nan_metric_sync=0.4)), ],
+                   p_no_ckpt_script=0.1, p_nodelay_false=0.05, p_async_stop=0.0, p_nan_metric_sync=0.4, p_early_finish_pbt=0.4)), ],
     "C10": [(6, _p(world="sim", kinds=MF_SIM, p_fault_free=0.7, fault_kinds=["crash"], p_latency=0.6)), ],
     "C12": [(6, _p(world="mem", kinds=MF, p_noreport=0.08, p_callback_raise=0.2, p_wait=0.4,
                    stop_fields=["max_num_trials_started", "max_num_trials_finished", "max_num_trials_completed",
